@@ -655,6 +655,13 @@ def check_features(ctx, fi, block, total):
         full = R
     E = floored(full)
     ctx.ob('floor-and-default', fi, loop, E is not None, 'the estimated total is floored at 1: `%s`' % U(full)[:200], construct='floor in ' + where)
+    if E is not None and isinstance(full, ast.Call) and U(full.func) in ('max', 'builtins.max') and len(full.args) == 2 and is_one(full.args[1]) and not is_one(full.args[0]):
+        # Python's max returns its FIRST argument unless a later one compares greater; every comparison with NaN is false.  All usable measurements
+        # having infinite noise (a zero-budget release) makes the estimate inf * 0 = NaN: max(1, NaN) is the floor 1, max(NaN, 1) is NaN - and a NaN
+        # total silently turns every marginal / weight into NaN
+        ctx.ob('floor-and-default', fi, loop, False,
+               'the floor is written `%s`: with the estimate first, a NaN estimate (all usable measurements have infinite noise: inf * 0) is returned as it is, '
+               'where `max(1, estimate)` falls back to 1' % U(full)[:60], construct='argument order of the floor in ' + where)
     floor_failed = E is None
     if E is None:
         E = full
